@@ -291,8 +291,21 @@ def prune_cache():
             shutil.rmtree(os.path.join(CACHE, d), ignore_errors=True)
 
 
+def _limit_memory():
+    # a runaway real execution (the watchdog gives up after 20 s but cannot stop the goroutine) must end as a Go
+    # "fatal error: out of memory" attributable to its case, not as an out-of-memory kill of the whole machine
+    import resource
+    resource.setrlimit(resource.RLIMIT_AS, (12 << 30, 12 << 30))
+
+
 def run_harness(binary, args, timeout=1800):
-    p = subprocess.run([binary] + args, capture_output=True, text=True, timeout=timeout, env=goenv())
+    try:
+        p = subprocess.run([binary] + args, capture_output=True, text=True, timeout=timeout, env=goenv(),
+                           preexec_fn=None if "race" in os.path.basename(binary) else _limit_memory)
+    except subprocess.TimeoutExpired as e:
+        raise Infra("harness %s: timeout after %ss (signal)\n%s" % (" ".join(args[:3]), timeout, (e.stderr or b"")[-1500:]))
+    if p.returncode < 0:
+        raise Infra("harness %s died of signal %d\n%s\n[...]\n%s" % (" ".join(args[:3]), -p.returncode, p.stderr[:3000], p.stderr[-1500:]))
     if p.returncode not in (0,):
         raise Infra("harness %s failed rc=%d\n%s\n%s\n[...]\n%s" % (" ".join(args[:3]), p.returncode, p.stdout[-3000:], p.stderr[:3000], p.stderr[-1500:]))
     return p.stdout
